@@ -1,6 +1,7 @@
 package commitx
 
 import (
+	"sort"
 	"fmt"
 	"strconv"
 	"strings"
@@ -69,6 +70,24 @@ func Judge(o *Obs) []Failure {
 	}
 	if o.Res.CommitErr != nil && after != before {
 		out = append(out, Failure{"C01", "C01/err-but-changed/" + tag, "Commit returned an error but the stores do not read as before", detail})
+	}
+	// C03: nothing written by a transaction that FAILED is ever read by a later transaction (items; the count is C01's)
+	if o.Res.CommitErr != nil {
+		itemsOf := func(d Dump) string {
+			var names []string
+			for n := range d {
+				names = append(names, n)
+			}
+			sort.Strings(names)
+			var out []string
+			for _, n := range names {
+				out = append(out, n+"{"+strings.Join(d[n].Items, " ")+"}")
+			}
+			return strings.Join(out, ";")
+		}
+		if itemsOf(o.After) != itemsOf(o.Before) {
+			out = append(out, Failure{"C03", "C03/failed-commit-writes-visible/" + tag, "a later transaction reads items written (or misses items removed) by a transaction whose Commit returned an error", detail})
+		}
 	}
 	// C07
 	if o.Res.CommitErr != nil {
